@@ -24,12 +24,14 @@ type GenOpts struct {
 	LiTrailing   bool // text behind a nested list inside an li
 	ChromeInLeaf bool // nav / aside inside td, li, blockquote
 	NestedTable  bool // a table inside a cell
+	ABlock       bool // <a href> wrapping headings and paragraphs (transparent content model)
 	Entities     bool // special characters behind tokens (Node.X)
 	Spelling     bool // per-node spelling bits (omitted end tags, quoting, case)
 
 	// Want, when set, is consulted each time the generator has drawn that it
 	// wants one of the optional features "li-p", "li-trailing", "tfoot",
-	// "spans", "chrome-in-leaf", "nested-table"; returning false vetoes that
+	// "spans", "chrome-in-leaf", "nested-table", "a-block",
+	// "headerless-table"; returning false vetoes that
 	// single use (the harness passes vr.Want to switch off features tied to a
 	// known finding while counting the vetoed draws).
 	Want func(feature string, drawn bool) bool `json:"-"`
@@ -38,7 +40,7 @@ type GenOpts struct {
 // AllFeatures switches everything on.
 func AllFeatures() GenOpts {
 	return GenOpts{Chrome: true, Vocab: true, Links: true, Hidden: true, Lists: true, Tables: true, Spans: true,
-		Tfoot: true, LiP: true, LiTrailing: true, ChromeInLeaf: true, NestedTable: true, Entities: true, Spelling: true}
+		Tfoot: true, LiP: true, LiTrailing: true, ChromeInLeaf: true, NestedTable: true, ABlock: true, Entities: true, Spelling: true}
 }
 
 // Vocabulary of the navigation filter under test, taken from its documentation
@@ -60,6 +62,7 @@ type gen struct {
 	tok     int
 	budget  int
 	hasMain bool
+	noLinks int // > 0 while generating inside an <a>: no nested links (HTML 4.5.1: no interactive descendants)
 }
 
 func (g *gen) bool(label string) bool { return rapid.Bool().Draw(g.t, label) }
@@ -128,16 +131,22 @@ func (g *gen) inline() []*Node {
 	n := g.int(1, 3, "inl")
 	var out []*Node
 	for i := 0; i < n; i++ {
-		switch g.int(0, 7, "ik") {
-		case 0, 1, 2, 3:
+		switch k := g.int(0, 15, "ik"); {
+		case k <= 8:
 			out = append(out, g.text())
-		case 4:
+		case k <= 10:
 			out = append(out, E(g.pick([]string{"b", "em", "strong", "i", "span"}, "fmt"), g.text()))
-		case 5:
-			out = append(out, g.link(g.text()))
-		case 6:
+		case k == 11:
+			// inline links are kept rare: four of them anywhere make the whole
+			// body "potentially link-dense" for the Aggressive clause
+			if g.noLinks > 0 {
+				out = append(out, g.text())
+			} else {
+				out = append(out, g.link(g.text()))
+			}
+		case k <= 13:
 			out = append(out, E("code", g.text()))
-		case 7:
+		default:
 			out = append(out, g.text(), E("br"))
 		}
 	}
@@ -309,7 +318,10 @@ func (g *gen) table(c ctx) *Node {
 		rows int
 	}
 	var secs []secSpec
-	if g.bool("thead") {
+	hasThead := g.bool("thead")
+	// a table without thead and without th in its first row has no header at all
+	forceTh := !hasThead && !g.want("headerless-table", true, true)
+	if hasThead {
 		secs = append(secs, secSpec{"thead", g.int(1, 2, "hr")})
 	}
 	nb := 1
@@ -335,17 +347,25 @@ func (g *gen) table(c ctx) *Node {
 					continue
 				}
 				tag := "td"
-				if sp.tag == "thead" || (col == 0 && g.chance(4, "th")) {
+				switch {
+				case sp.tag == "thead":
+					if !g.chance(6, "thead-td") { // td is allowed in thead too (HTML 4.9.6)
+						tag = "th"
+					}
+				case forceTh && len(t.Kids) == 0 && r == 0:
+					tag = "th"
+				case g.chance(4, "th"):
 					tag = "th"
 				}
 				cell := g.el(tag)
 				cs, rs := 1, 1
-				if g.want("spans", g.o.Spans, g.chance(4, "span")) {
-					if g.bool("colspan") {
+				if g.want("spans", g.o.Spans, g.chance(3, "span")) {
+					if col == 0 || r+1 >= sp.rows || g.bool("colspan") {
 						for cs < 3 && col+cs < cols && !occ[r][col+cs] && g.bool("cs+") {
 							cs++
 						}
-					} else if col > 0 { // column 0 never row-spans: every row keeps an anchored cell
+					} else { // column 0 never row-spans: every row keeps an anchored cell
+						rs = 2
 						for rs < 3 && r+rs < sp.rows && g.bool("rs+") {
 							rs++
 						}
@@ -453,6 +473,20 @@ func (g *gen) hiddenBlock() *Node {
 	}
 }
 
+// aBlock is the "card" pattern <a href><h3>…</h3><p>…</p></a>: the a element
+// has a transparent content model, so flow content is allowed inside it as
+// long as there is no interactive content (no nested a).
+func (g *gen) aBlock() *Node {
+	g.noLinks++
+	defer func() { g.noLinks-- }()
+	a := g.link()
+	if g.bool("card-head") {
+		a.Kids = append(a.Kids, g.heading())
+	}
+	a.Kids = append(a.Kids, g.para())
+	return a
+}
+
 func (g *gen) wrapper(c ctx) *Node {
 	var tag string
 	sub := c
@@ -511,13 +545,18 @@ func (g *gen) block(c ctx) *Node {
 	case 6:
 		return g.quote(c)
 	case 7:
-		if g.o.Links {
+		if g.o.Links && g.noLinks == 0 {
 			return g.linkBlock(c)
 		}
 	case 8:
 		if g.o.Hidden {
 			return g.hiddenBlock()
 		}
+	case 9:
+		if g.noLinks == 0 && g.want("a-block", g.o.ABlock, g.chance(3, "a-block")) {
+			return g.aBlock()
+		}
+		return g.wrapper(c)
 	default:
 		return g.wrapper(c)
 	}
